@@ -602,13 +602,13 @@ SUBCHECKS = [
              rule="constructed values: z = m^d+delta, triangular+delta, 2^e+delta (|delta|<=3), free z and "
                   "coordinates up to 2e8 per axis; non-trivial = adjacent to a perfect power / edge "
                   "coordinates / beyond 2^53",
-             strategy=strat_large, budget={"quick": 4000, "thorough": 80000},
+             strategy=strat_large, budget={"quick": 12000, "thorough": 80000},
              essential_labels=("beyond-float-precision",)),
     SubCheck("to-zd", body_zd, classify_zd,
              rule="PairingToZd over {rs,szudzik,cantor,pepis} x d in {2,3} x omit_zero: project/pair round "
                   "trips from drawn indices and drawn signed tuples; non-trivial = d=3, zero not omitted, or "
                   "a negative coordinate",
-             strategy=strat_zd, budget={"quick": 4000, "thorough": 60000}),
+             strategy=strat_zd, budget={"quick": 12000, "thorough": 60000}),
     SubCheck("z1d-exhaustive", body_z1d, classify_z1d,
              rule="all intervals [-L,R] with L,R <= 12 (quick) / 40 (thorough) x omit_zero x four call orders "
                   "of the stateful project; non-trivial = asymmetric interval or non-sequential order",
@@ -616,7 +616,7 @@ SUBCHECKS = [
     SubCheck("z1d-drawn", body_z1d, classify_z1d,
              rule="drawn intervals up to 400 per side, drawn permutation prefix + repeats then sequential; "
                   "non-trivial as above",
-             strategy=strat_z1d, budget={"quick": 300, "thorough": 5000}),
+             strategy=strat_z1d, budget={"quick": 900, "thorough": 5000}),
     SubCheck("lazy-product", body_lazy, classify_lazy,
              rule="all size tuples (d<=4) with product <= 400 (quick, thinned) / 5000 (thorough) versus "
                   "itertools.product as multisets; non-trivial = unequal sizes or d>=3",
@@ -624,11 +624,11 @@ SUBCHECKS = [
     SubCheck("divisor-sum", body_an, classify_an,
              rule="a_n vs naive divisor sum on blocks of 100 below 5000, vs integer-only formula for n<=1e10 "
                   "(incl. m^2+-2), upper_bound_a_n(z) bracket a(n-1)<=z<a(n) for z<2^40",
-             strategy=strat_an, budget={"quick": 600, "thorough": 10000}),
+             strategy=strat_an, budget={"quick": 1800, "thorough": 10000}),
     SubCheck("states-manager", body_states, classify_states,
              rule="StatesManager over real CTMC grids (fixed-size uniform, geometric with bounds, asymmetric "
                   "shared/per-axis axes; d=1..3; 0-1 refinements): indices 0,1,2,.. until the exhaustion flag "
                   "must return exactly the in-grid non-origin increments once each; non-trivial = d>=2, "
                   "asymmetric or refined",
-             strategy=strat_states, budget={"quick": 160, "thorough": 2500}),
+             strategy=strat_states, budget={"quick": 480, "thorough": 2500}),
 ]
